@@ -183,7 +183,7 @@ def _trim_cases(draw, tier):
     nv = draw(st.integers(3, 8))
     radii = [draw(st.integers(2, 5)) for _ in range(nv)]
     return {"defn": d, "nu": n, "nv": m, "style": style, "c": [cx, cy], "radii": radii, "sense": draw(st.sampled_from([0, 1, None])),
-            "rot": draw(st.integers(0, 15))}
+            "rot": draw(st.integers(0, 15)), "cw": draw(st.booleans())}
 
 
 def _trim_polygon(case):
@@ -254,6 +254,9 @@ def check_trimmed(case, ctx):
     obj = build.make(d)
     R = build.exact_from(d, obj)
     obj.sample_size_u, obj.sample_size_v = nu, nv
+    if case.get("cw"):
+        poly = poly[::-1]          # the trim curve may run in either direction
+    ctx.label("trim-clockwise", bool(case.get("cw")))
     closed = poly + [poly[0]]
     style = case["style"]
     if style in ("spline1", "spline2"):
@@ -350,6 +353,16 @@ def check_exports(case, ctx):
         refs.append(([list(v.data) for v in o.vertices], [list(f.data) for f in o.faces]))
     objs = _fresh(case)
     target = objs[0] if len(objs) == 1 else multi.SurfaceContainer(*objs)
+    pre = len(objs) == 1 and case["shapes"][0]["nu"] % 2 == 1
+    ekw = {"update_delta": False}
+    if pre:
+        # the object was tessellated before with ANOTHER spacing; the export (default arguments) must describe the requested one
+        other = 2 if k == 1 else 1
+        if (case["shapes"][0]["nu"] - 1) % other == 0 and (case["shapes"][0]["nv"] - 1) % other == 0:
+            objs[0].tessellate(vertex_spacing=other)
+            _ = objs[0].faces
+            ekw = {}
+            ctx.label("export-after-other-tessellation")
     ctx.nt(len(objs) >= 2, "container>=2")
     ctx.nt(k >= 2, "spacing>=2")
     ctx.nt(any(s["nu"] != s["nv"] for s in case["shapes"]), "nu!=nv")
@@ -365,7 +378,7 @@ def check_exports(case, ctx):
     def close3(a, b, tol):
         return all(abs(x - y) <= tol * (1.0 + abs(y)) for x, y in zip(a, b))
     if fmt in ("obj", "off"):
-        text = exchange.export_obj_str(target, vertex_spacing=k, update_delta=False) if fmt == "obj" else exchange.export_off_str(target, vertex_spacing=k, update_delta=False)
+        text = exchange.export_obj_str(target, vertex_spacing=k, **ekw) if fmt == "obj" else exchange.export_off_str(target, vertex_spacing=k, **ekw)
         lines = [l for l in text.split("\n") if l.strip() and not l.startswith("#")]
         if fmt == "off":
             ctx.check(lines[0].strip() == "OFF", "off-header", "%s: first line %r" % (what, lines[0]))
@@ -389,7 +402,7 @@ def check_exports(case, ctx):
                       "%s: face %r resolves to %r, the tessellation's triangle is %r" % (what, fi, got, tri))
     else:
         binary = fmt == "stlb"
-        data = exchange.export_stl_str(target, vertex_spacing=k, update_delta=False, binary=binary)
+        data = exchange.export_stl_str(target, vertex_spacing=k, binary=binary, **ekw)
         facets = []
         if binary:
             ctx.check(isinstance(data, (bytes, bytearray)) and len(data) >= 84, "stl-binary-header", "%s: binary STL shorter than its header" % what)
@@ -481,6 +494,9 @@ def check_container(case, ctx):
     # containers hand their delta to the elements (the container's own sample_size uses another convention, 1/(n-1),
     # which is not part of this property), so the density is set through delta
     cont.delta = 1.0 / n
+    if case["n"] % 2:
+        cont.tessellator = tessellate.TriangularTessellate()        # the documented way to choose the algorithm for all members
+        ctx.label("tessellator-set-through-container")
     cont.tessellate(vertex_spacing=k)
     if case["twice"]:
         _ = cont.vertices, cont.faces
